@@ -52,12 +52,12 @@ func runBatchHarness(r *ev.Run) {
 		"batch:blob-skipped-as-present", "batch:put-rejected-by-sticky-error",
 		"batch:recovery-after-reported-error", "batch:context-cancelled", "batch:flush-with-nothing-pending",
 	} {
-		r.Floor(s, 10)
+		if r.ReplayFile() == "" {
+			r.Floor(s, 10)
+		}
 	}
-	n := r.Pick(1500, 30000)
-	for ci := 0; ci < n; ci++ {
-		runBatchCase(r, ci)
-	}
+	n := r.Pick(1500, 20000)
+	outkit.ParallelFor(n, workers, func(ci int) { runBatchCase(r, ci) })
 }
 
 func runBatchCase(r *ev.Run, ci int) {
